@@ -7,6 +7,7 @@ from . import common as C, lin
 
 PROP = "C19"
 PROPS_FILE = "props/C19.v"
+IMPORTS = "Chol"
 RULE = ("cases = densities (GaussianPDF and GaussianDiagPDF) with R in 1..4, D in 1..4, Sigma = L0 L0' for a rational lower-triangular L0 with positive diagonal "
         "(strong correlations included: off-diagonal entries up to 3x the diagonal), seeded PRNG keys, n = 4 draws for the "
         "structural comparison; one statistical case per run with n = 40000 draws (supporting only); non-trivial = R*D > 1; "
@@ -16,7 +17,7 @@ EXPLANATION = ("model Sample.v: x[d,a,:] = mu_a + L_a z[d,a,:] evaluated at Qc o
                "Sigma; vs implementation sample(key, n); oracle: independent numpy Cholesky, reproducibility (same key twice), "
                "component r unchanged when the other components' parameters change; statistical moments within 6 standard "
                "errors (supporting validation, not part of the proof)")
-hist = lambda d: dict(R=d["R"], D=d["D"], n=d["n"], stat=d.get("stat", False), diag=d.get("diag", False))
+hist = lambda d: dict(R=d["R"], D=d["D"], n=d["n"], stat=d.get("stat", False), diag=d.get("diag", False), history=bool(d.get("history")))
 nontrivial = lambda d: d["R"] * d["D"] > 1
 scenario = lambda d: "stat" if d.get("stat") else "structural"
 
@@ -30,7 +31,14 @@ def gen_case(g, R, D, n, stat=False, diag=False):
             for j in range(i):
                 L[i][j] = Fr(0) if diag else g.q(lo=-6, hi=6, dens=(1, 2))
         Ls.append(L)
-    return dict(R=R, D=D, n=n, L=Ls, mu=g.mat(R, D), seed=g.randint(0, 2 ** 31 - 1), stat=stat, diag=diag)
+    d = dict(R=R, D=D, n=n, L=Ls, mu=g.mat(R, D), seed=g.randint(0, 2 ** 31 - 1), stat=stat, diag=diag)
+    if not stat and g.randint(0, 2) == 0:
+        # a history on the object: sampled before, then some components replaced in place by update(idx, d), then sampled
+        k = g.randint(1, R)
+        idx = list(range(R)); g.shuffle(idx); idx = idx[:k]
+        before = gen_case(g, R, D, n, stat=True, diag=diag)          # (stat=True: no nested history)
+        d["history"] = dict(idx=[(r - R if g.randint(0, 1) else r) for r in idx], pos=idx, L=before["L"], mu=before["mu"])
+    return d
 
 
 def gen_descs(g, tier):
@@ -66,8 +74,11 @@ def coq_term(d):
         return "obs_chol %d %d (lb3 %s) (lb3 %s)" % (d["R"], d["D"], cb3(d["L"]), cb3([sig_of(L) for L in d["L"]]))
     _, z = stream(d)
     zq = [[[Fr(float(v)) for v in row] for row in draw] for draw in z]
-    return "obs_chol %d %d (lb3 %s) (lb3 %s) ++ obs_sample %d %d %d (lb2 %s) (lb3 %s) (lz %s)" % (
-        d["R"], d["D"], cb3(d["L"]), cb3([sig_of(L) for L in d["L"]]),
+    Sg = cb3([sig_of(L) for L in d["L"]])
+    # the factorisation Sigma = L D L' computed by the model (proofs/Chol.v): every Cholesky factor C has C_jj^2 = d_j, C_ij = L_ij C_jj
+    ldl = "flatten [seq (let f := ldl %d (lb3 %s a) in dV %d f.2 ++ dM %d %d f.1) | a <- iota 0 %d]" % (d["D"], Sg, d["D"], d["D"], d["D"], d["R"])
+    return "obs_chol %d %d (lb3 %s) (lb3 %s) ++ %s ++ obs_sample %d %d %d (lb2 %s) (lb3 %s) (lz %s)" % (
+        d["R"], d["D"], cb3(d["L"]), cb3([sig_of(L) for L in d["L"]]), ldl,
         d["n"], d["R"], d["D"], cmat(d["mu"]), cb3(d["L"]), cseq([cseq([cvec(r) for r in draw]) for draw in zq]))
 
 
@@ -79,10 +90,28 @@ def run_impl(d):
     R, D, n = d["R"], d["D"], d["n"]
     Sig = [sig_of(L) for L in d["L"]]
     PDF = I["pdf"].GaussianDiagPDF if d.get("diag") else I["pdf"].GaussianPDF
-    p = PDF(Sigma=jarr(Sig), mu=jarr(d["mu"]))
     key, z = stream(d)
+    h = d.get("history")
+    if h:
+        R0 = R
+        Sb = [sig_of(L) for L in h["L"]]; mb = [list(m) for m in h["mu"]]
+        for r in range(R0):
+            if r not in h["pos"]:
+                Sb[r] = Sig[r]; mb[r] = d["mu"][r]
+        p = PDF(Sigma=jarr(Sb), mu=jarr(mb))
+        p.sample(key, n); p.sample(jax.random.PRNGKey(1), 2)
+        p.update(I["jnp"].array(h["idx"]), PDF(Sigma=jarr([Sig[r] for r in h["pos"]]), mu=jarr([d["mu"][r] for r in h["pos"]])))
+    else:
+        p = PDF(Sigma=jarr(Sig), mu=jarr(d["mu"]))
     x = np.asarray(p.sample(key, n), dtype=float)
     ob.add("is_chol", np.ones(R), exact=True)
+    if not d.get("stat"):
+        # the Cholesky factor the implementation's sample() uses, against the model's L D L'
+        Cf = np.asarray(I["jnp"].linalg.cholesky(p.Sigma), dtype=float)
+        for a in range(R):
+            dg = np.diag(Cf[a])
+            ob.add("chol diag^2 [%d]" % a, dg ** 2)
+            ob.add("chol / diag [%d]" % a, Cf[a] / dg[None, :])
     mu = gtlib.fl(d["mu"]); S = np.array([gtlib.fl(s) for s in Sig])
     if x.shape != (n, R, D):
         fails.append(lin.fail(["C19"], "shape of the sample array %s" % (x.shape,), "pdf.sample"))
